@@ -32,6 +32,12 @@ CHECKS = {
  "C19": ("Vocabularies with special tokens and plain look-alike tokens; sequence templates mixing literals, a class containing < | >, and token references (<name>, <[id]>, ranges, negated ranges, <[*]>) with position tracking by the generator: at reference positions the mask must equal exactly the denoted id set (validate and commit agreeing), at text positions no special/marker/empty token may be allowed or accepted; tokenisation of names in text vs marked names is checked per vocabulary.",
          "reference sets are computed by the harness from the documented range semantics; EOS ids at text positions follow C01's accepting clause",
          "property-based testing with generator-side position tracking (validity predicate per state)"),
+ "C03": ("Mask walks over non-empty regexes, reduced CFGs and JSON schemas (numeric ranges, multipleOf, length bounds, patterns, formats, allOf) with byte-complete vocabularies: every visited state must have a computable non-empty mask (or be accepting), stops must be NoExtension/EndOfSentence, and a finite completion must exist - exact for regexes (the reference DFA's shortest completion must be accepted), bounded best-first search otherwise (exhausted search = violation, exceeded budget = inconclusive).",
+         "completion for CFG/JSON grammars is a bounded search; inconclusive searches are counted in the evidence",
+         "property-based testing: invariant over visited states + reference-guided / bounded completion search"),
+ "C15": ("The front-end grammar and its optimised form (public API: to_internal, optimize, to_string) are parsed from their dumps into the harness BNF and compared as prefix languages of terminal sequences by a lock-step walk of two independent reference charts (length <= 7, node budget); special symbols (captures, limits, sub-grammar links) become bracket pseudo-terminals and their reachable set must be unchanged.",
+         "depends on the dump format of Grammar::to_string (unparsable dumps are skipped and counted; 0 so far); bounded length",
+         "property-based testing: translation validation of the optimiser against a reference recogniser (bounded language equivalence)"),
  "C11": ("Generated histories of commits, rollbacks, resets and read-only queries on a live engine; at explicit check points every observable (mask words, accepting, forced bytes, stop status, validate results) is compared with a freshly built engine that replayed only the net tokens; mask twice / invalidate+mask are compared bitwise.",
          "the model is the engine itself on a fresh instance (relational oracle): it detects traces of earlier queries, not language errors",
          "stateful property-based testing (operation sequences + fresh-replay model)"),
